@@ -219,6 +219,10 @@ def _cells():
         Cell('orthorhombic-F', (3.9, 4.6, 5.7, 90, 90, 90), 'f', BG),
         Cell('trigonal-t1', (3.4, 3.4, 8.3, 90, 90, 120), 't1', BD),
         Cell('trigonal-t2', (3.4, 3.4, 8.3, 90, 90, 120), 't2', BD),
+        # the same kind of cell with its lengths held in metres (SI working units): nothing in the statement depends on the
+        # unit of length
+        Cell('orthorhombic-P-metres', (3.1e-10, 4.3e-10, 5.9e-10, 90, 90, 90), 'p', B1),
+        Cell('cubic-F-metres', (3.6e-10, 3.6e-10, 3.6e-10, 90, 90, 90), 'f', BD),
     ]
     seeds = [
         lambda: Cell('seed0-rhombohedral-obtuse', (4.0, 4.0, 4.0, 100, 100, 100), 'p', B2),
@@ -987,6 +991,9 @@ def gen():
     n = 0
     # slab cases first (longest single cases)
     for ci, cell in enumerate(CELLS):
+        if cell.name.endswith('-metres'):
+            continue      # FreeSurface / StackingFault have a documented ABSOLUTE tol parameter (1e-7 working units); the
+            #               metre-scale cells are for free_surface_basis, which has none
         pl = list(planes3(2))
         if cell.hex:
             pl += [h for h in planes4(2) if h[0] + h[1] + h[2] == 0]
@@ -1022,6 +1029,8 @@ def gen():
         else:
             yield 'refusal', {'kind': 'hkil-nonhex', 'cell': ci}
             yield 'refusal', {'kind': 'rethex-nonhex', 'cell': ci}
+        if cell.name.endswith('-metres'):
+            continue
         for kind in ('zero', 'nonint', 'shape', 'vacuum-negative', 'shift-and-index', 'faultpos-both', 'faultpos-outside', 'a1-and-faultshift', 'one-avect'):
             yield 'refusal', {'kind': kind, 'cell': ci}
 
